@@ -494,9 +494,13 @@ func startWithListenerFds(cdyfile Input, inst *Instance, restartFds map[string]r
 	instancesMu.Lock()
 	instances = append(instances, inst)
 	instancesMu.Unlock()
+	// event hooks registered by the directives of a configuration
+	// that is then rejected must not stay behind either
+	oldEventHooks := cloneEventHooks()
 	var err error
 	defer func() {
 		if err != nil {
+			restoreEventHooks(oldEventHooks)
 			instancesMu.Lock()
 			for i, otherInst := range instances {
 				if otherInst == inst {
@@ -609,7 +613,14 @@ func ValidateAndExecuteDirectives(cdyfile Input, inst *Instance, justValidate bo
 		return fmt.Errorf("error inspecting server blocks: %v", err)
 	}
 
-	return executeDirectives(inst, cdyfile.Path(), stype.Directives(), sblocks, justValidate)
+	// if a directive fails, the event hooks registered by the
+	// directives before it are taken out of the registry again
+	oldEventHooks := cloneEventHooks()
+	err = executeDirectives(inst, cdyfile.Path(), stype.Directives(), sblocks, justValidate)
+	if err != nil {
+		restoreEventHooks(oldEventHooks)
+	}
+	return err
 }
 
 func executeDirectives(inst *Instance, filename string,
